@@ -7,6 +7,11 @@
  *   N <workers>       worker threads 1..N (Thread objects are created up front); tid 0 is the main thread
  *   S <seed>          seed of the noise generators
  *   <tid> <op> …      one event
+ *   newthr U         the executing thread makes worker U's Thread object the documented way, `var x = new(Thread, f)`, and
+ *                    keeps it in a variable of its own stack frame (it replaces the raw one made up front); in `gc` lines
+ *                    the token TU stands for that variable (kept on the stack / dropped)
+ *   pubo K | rdo U   store a pointer to the own object K in a Ref of the joiner | dereference what thread U stored
+ *   kf NAME          run the reproducer of a known finding in a forked child (mark-foreign-tls)
  * events: spawn U | join U | begin | end | new K | newroot K | newx K (destructor does try/throw/catch) | del U K | gc K* | churn N | tset KEY U K | tget KEY |
  *         tmem KEY | trem KEY | x <exception program> | lookup TY CLS | pub V | perr FN ERRNO | work KIND SEED N |
  *         lock M | unlock M | trylock M | enter M | leave M | winc M C | ld C | st C | rd U
@@ -28,6 +33,11 @@
  *   c13-cache          type_instance through the shared cache differs from the declaration
  *   c13-errmap         pthread error code translated to another exception than documented
  *   c13-wrapper        a Cello lock/unlock/trylock/join did not map 1:1 onto the pthread primitive of that object
+ * Known findings (X lines with a `kf-` signature; generated cases stay out of their territory):
+ *   kf-c13-mark-foreign-tls        the mark phase of a thread that holds `new(Thread, f)` of a running thread walks that thread's
+ *                                  thread-local table while it is being rewritten (forked child: exception out of `new`, or memory error)
+ *   kf-c13-join-result-finalised   after join(U) the object U allocated and handed to the joiner has been finalised by U's teardown
+ *   kf-c13-join-edeadlk            join(current(Thread)) returned while the thread function is still running (EDEADLK ignored)
  * A run that makes no progress for 15 s (deadlock) or exceeds 45 s prints where every thread is stuck and exits with
  * status 142; a crash of any thread (e.g. a destructor running without the thread's exception record) kills the process:
  * both are reported by the runner as a crash of the case.
@@ -114,16 +124,16 @@ static var probe_class(int i) {
 
 /* ------------------------------------------------------------------------------------------- events */
 enum { OP_SPAWN, OP_JOIN, OP_BEGIN, OP_END, OP_NEW, OP_NEWROOT, OP_NEWX, OP_DEL, OP_GC, OP_CHURN, OP_TSET, OP_TGET, OP_TMEM, OP_TREM,
-       OP_X, OP_LOOKUP, OP_PUB, OP_PERR, OP_WORK, OP_LOCK, OP_UNLOCK, OP_TRYLOCK, OP_ENTER, OP_LEAVE, OP_WINC, OP_LD, OP_ST, OP_RD, OP_BAD };
+       OP_X, OP_LOOKUP, OP_PUB, OP_PERR, OP_WORK, OP_NEWTHR, OP_PUBO, OP_KF, OP_LOCK, OP_UNLOCK, OP_TRYLOCK, OP_ENTER, OP_LEAVE, OP_WINC, OP_LD, OP_ST, OP_RD, OP_RDO, OP_BAD };
 static const char* opname[] = { "spawn", "join", "begin", "end", "new", "newroot", "newx", "del", "gc", "churn", "tset", "tget", "tmem", "trem",
-       "x", "lookup", "pub", "perr", "work", "lock", "unlock", "trylock", "enter", "leave", "winc", "ld", "st", "rd", "bad" };
-static int is_sync(int op) { return op == OP_SPAWN || op == OP_JOIN || (op >= OP_LOCK && op <= OP_RD); }
+       "x", "lookup", "pub", "perr", "work", "newthr", "pubo", "kf", "lock", "unlock", "trylock", "enter", "leave", "winc", "ld", "st", "rd", "rdo", "bad" };
+static int is_sync(int op) { return op == OP_SPAWN || op == OP_JOIN || (op >= OP_LOCK && op <= OP_RDO); }
 
 enum { STMT, THROW, SEQ, TRY, CALL };
 typedef struct Node { int kind; int n; int filt[8]; int nfilt; struct Node *a, *b; } Node;
 
 typedef struct Evt {
-  int tid, op, line; long a, b, c; char key[64]; int nks; int* ks; Node* prog; char* out;
+  int tid, op, line; long a, b, c; char key[64]; int nks; int* ks; int nts; int* ts; Node* prog; char* out;
 } Evt;
 static Evt* ev; static size_t nev;
 static int nworkers = 0;
@@ -220,6 +230,7 @@ static void noise(void) {
   }
 }
 
+static void malloc_noise_off(void);
 enum { FN_NONE, FN_LOCK, FN_TRYLOCK, FN_UNLOCK, FN_JOIN };
 static __thread int tl_cello_sync = 0;            /* the current pthread call is made by a Cello operation under test */
 static __thread int tl_inject_fn = FN_NONE, tl_inject_err = 0;
@@ -257,6 +268,7 @@ int __wrap_pthread_join(pthread_t t, void** r) {
   return __real_pthread_join(t, r);
 }
 static int malloc_noise = 0;
+static void malloc_noise_off(void) { malloc_noise = 0; }
 void* __wrap_malloc(size_t n) { if (malloc_noise && (nrand() & 255) == 0) sched_yield(); return __real_malloc(n); }
 void* __wrap_calloc(size_t a, size_t b) { if (malloc_noise && (nrand() & 127) == 0) sched_yield(); return __real_calloc(a, b); }
 
@@ -264,7 +276,12 @@ void* __wrap_calloc(size_t a, size_t b) { if (malloc_noise && (nrand() & 127) ==
 enum { PH_UNBORN, PH_READY, PH_RUNNING, PH_DONE };
 static atomic_int phase[MAXT];
 static int was_joined[MAXT];
-static var thread_obj[MAXT];              /* raw Thread objects (never GC managed) */
+static var thread_obj[MAXT];              /* Thread objects: raw (new_raw, no collector meets them) unless made by `newthr` */
+static int managed[MAXT];                 /* thread_obj[u] is `new(Thread, f)` made by thread managed[u]-1, held in that thread's frame */
+static int wrapper_gone[MAXT];            /* that Thread object has been finalised (by a collection / the teardown of its maker) */
+static atomic_int entered[MAXT];          /* the thread function of u has been entered (the prologue of Thread_Init_Run is over) */
+static int pubo_t[MAXT], pubo_k[MAXT];    /* what thread t stored into the joiner's Ref: object pubo_t.pubo_k (pubo_k < 0: nothing) */
+static var pubo_ref[MAXT];                /* the Ref itself (raw) */
 static var tid_obj[MAXT];                 /* raw Int carrying the tid to the thread function */
 static var pub_obj[MAXT];                 /* raw Int written by thread t (`pub`), read by others (`rd`) */
 static long last_pub[MAXT];               /* last value thread t's program publishes */
@@ -471,10 +488,77 @@ static var tls_peek(const char* key) {
   return mem(th->tls, $S((char*)key)) ? deref(get(th->tls, $S((char*)key))) : NULL;
 }
 
+/* ------------------------------------------------------------------------------------------- collector-managed Thread objects */
+#define HTHR(held) ((held) + MAXK)              /* the part of the thread's frame that holds its `var x = new(Thread, f)` variables */
+static var worker_fn;                                  /* $(Function, worker), lives in main's frame */
+static int is_live(int u) { int ph = atomic_load(&phase[u]); return ph == PH_READY || ph == PH_RUNNING; }
+/* would a sweep by `me` that keeps only the Thread objects in `keep` free the Thread object of a live thread?  (Thread_Del frees
+   that thread's table under it: not executed, outcome `ub`) */
+static int sweep_kills_live(int me, const int* keep, int nkeep) {
+  for (int u = 1; u < MAXT; u++) if (managed[u] == me + 1 && !wrapper_gone[u] && is_live(u)) {
+    int k = 0; for (int i = 0; i < nkeep; i++) if (keep[i] == u) k = 1;
+    if (!k) return 1;
+  }
+  return 0;
+}
+
+/* known finding KF-C13-mark-foreign-tls, in a forked child (the race ends in an exception out of `new`, or in a memory error) */
+static volatile int kf_halt = 0;
+static var kf_storm(var args) {
+  var me = current(Thread); char key[32];
+  while (!kf_halt) {
+    for (int i = 0; i < 200 && !kf_halt; i++) { snprintf(key, sizeof key, "k%d", i); set(me, $S(key), $I(i)); }
+    for (int i = 0; i < 200 && !kf_halt; i++) { snprintf(key, sizeof key, "k%d", i); rem(me, $S(key)); }
+  }
+  return NULL;
+}
+static void kf_mark_foreign_tls(int line) {
+  fflush(stdout);
+  pid_t pid = fork();
+  if (pid == 0) {
+    signal(SIGALRM, SIG_DFL); alarm(40);
+    int devnull = open("/dev/null", 1); if (devnull >= 0) dup2(devnull, 2);
+    malloc_noise_off();
+    var x = new(Thread, $(Function, kf_storm));        /* the documented usage: a collector-managed Thread object in a stack variable */
+    call(x);
+    volatile int diverted = 0; time_t t0 = time(NULL);
+    try {
+      while (time(NULL) - t0 < 8) for (int i = 0; i < 20000; i++) { var o = new(Int, $I(i)); (void)o; }
+    } catch (e) { diverted = 1; }
+    kf_halt = 1;
+    if (diverted) _exit(3);
+    join(x);
+    _exit(0);
+  }
+  int st = 0; waitpid(pid, &st, 0);
+  if (WIFEXITED(st) && WEXITSTATUS(st) == 0) I("kf mark-foreign-tls: not reproduced in this run (8 s)");
+  else if (WIFEXITED(st) && WEXITSTATUS(st) == 3)
+    XX("sig=kf-c13-mark-foreign-tls line=%d what=main only allocates; its mark phase reached `x = new(Thread, f)` and walked the worker's thread-local table while the worker was rewriting it: an exception came out of `new` in main", line);
+  else
+    XX("sig=kf-c13-mark-foreign-tls line=%d what=main only allocates; its mark phase reached `x = new(Thread, f)` and walked the worker's thread-local table while the worker was rewriting it: memory error (%s %d)", line,
+       WIFSIGNALED(st) ? "signal" : "exit status", WIFSIGNALED(st) ? WTERMSIG(st) : WEXITSTATUS(st));
+}
+
 /* ------------------------------------------------------------------------------------------- one local operation */
 static void exec_local(Evt* e, var* held) {
   int me = my_tid;
   switch (e->op) {
+    case OP_NEWTHR: {
+      int u = (int)e->a;
+      if (u <= 0 || u > nworkers || u == me || atomic_load(&phase[u]) != PH_UNBORN || managed[u]) { set_out(e, "bad"); break; }
+      var old = thread_obj[u];
+      HTHR(held)[u] = new(Thread, worker_fn);            /* registered with this thread's collector; the pointer lives in this thread's frame */
+      thread_obj[u] = HTHR(held)[u]; managed[u] = me + 1;
+      if (old) del_raw(old);
+      set_out(e, "ok"); break; }
+    case OP_PUBO: {
+      int k = (int)e->a; var p = atomic_load(&objs[me][k]);
+      pubo_t[me] = me; pubo_k[me] = k;
+      if (p) ref(pubo_ref[me], p);
+      set_out(e, "ok"); break; }
+    case OP_KF:
+      if (!strcmp(e->key, "mark-foreign-tls")) kf_mark_foreign_tls(e->line);
+      set_out(e, "done"); break;
     case OP_BEGIN: {
       var th = current(Thread);
       if (th != thread_obj[me]) XX("sig=c13-tls-value line=%d what=current(Thread) in thread %d is not its Thread object", e->line, me);
@@ -506,7 +590,9 @@ static void exec_local(Evt* e, var* held) {
       }
       break; }
     case OP_GC: {
+      if (sweep_kills_live(me, e->ts, e->nts)) { set_out(e, "ub"); break; }     /* would free the Thread object of a live thread: not executed */
       struct GC* gc = current(GC);
+      for (int u = 1; u < MAXT; u++) if (HTHR(held)[u]) { int keep = 0; for (int i = 0; i < e->nts; i++) if (e->ts[i] == u) keep = 1; if (!keep) HTHR(held)[u] = NULL; }
       for (int k = 0; k < MAXK; k++) if (held[k]) { int keep = 0; for (int i = 0; i < e->nks; i++) if (e->ks[i] == k) keep = 1; if (!keep) held[k] = NULL; }
       /* GC_Mark with the conservative stack scan replaced by the given set */
       if (gc->nitems != 0) {
@@ -516,8 +602,11 @@ static void exec_local(Evt* e, var* held) {
           if (gc->entries[i].root) { gc->entries[i].marked = true; GC_Recurse(gc, gc->entries[i].ptr); }
         }
         for (int i = 0; i < e->nks; i++) { int k = e->ks[i]; if (k >= 0 && k < MAXK && alive[me][k]) GC_Mark_Item(gc, atomic_load(&objs[me][k])); }
+        /* the Thread objects this thread keeps in stack variables: GC_Mark_Item -> GC_Recurse -> Thread_Mark -> that thread's table */
+        for (int i = 0; i < e->nts; i++) { int u = e->ts[i]; if (u > 0 && u < MAXT && HTHR(held)[u] && managed[u] == me + 1 && !wrapper_gone[u]) GC_Mark_Item(gc, HTHR(held)[u]); }
       }
       GC_Sweep(gc);
+      for (int u = 1; u < MAXT; u++) if (managed[u] == me + 1 && !wrapper_gone[u] && !HTHR(held)[u]) wrapper_gone[u] = 1;   /* finalised: Thread_Del */
       /* what must have survived: the given set, thread-local values, roots */
       for (int k = 0; k < MAXK; k++) if (alive[me][k] && !held[k] && !isroot[me][k]) {
         /* not on the stack: alive only if thread-local storage refers to it */
@@ -592,7 +681,6 @@ static void exec_local(Evt* e, var* held) {
 
 /* ------------------------------------------------------------------------------------------- thread start / exit */
 static var worker(var args);
-static var worker_fn;                                  /* $(Function, worker), lives in main's frame */
 
 static void do_spawn(int u) {
   call(thread_obj[u], tid_obj[u]);
@@ -605,6 +693,7 @@ static void on_thread_exit(void* v) {
   char b[4096]; ledger_text(t, b, sizeof b);
   if (end_idx[t] >= 0) { set_out(&ev[end_idx[t]], "%s", b); check_teardown(t, ev[end_idx[t]].line); }
   for (int k = 0; k < MAXK; k++) if (alive[t][k] && !isroot[t][k]) alive[t][k] = 0;   /* finalised by the teardown */
+  for (int u = 1; u < MAXT; u++) if (managed[u] == t + 1) wrapper_gone[u] = 1;        /* … and so were the Thread objects it made */
   atomic_store(&phase[t], PH_DONE);
   if (!free_mode && end_idx[t] >= 0) {
     /* hand the baton on */
@@ -643,12 +732,24 @@ static void exec_sync_sched(Evt* e) {
     case OP_SPAWN: {
       int u = (int)e->a;
       int ph = (u > 0 && u <= nworkers) ? atomic_load(&phase[u]) : -1;
+      if (ph >= 0 && wrapper_gone[u]) { set_out(e, "ub"); break; }      /* call on a finalised Thread object: not executed */
       if (!(ph == PH_UNBORN || (ph == PH_DONE && was_joined[u]))) { set_out(e, "bad"); break; }
       was_joined[u] = 0; end_idx[u] = -1;                   /* a joined Thread object may be called again */
-      atomic_store(&phase[u], PH_READY); do_spawn(u); set_out(e, "spawned"); break; }
+      atomic_store(&entered[u], 0);
+      atomic_store(&phase[u], PH_READY); do_spawn(u);
+      /* a collector-managed Thread object: its maker's collections walk this thread's table, which the prologue of
+         Thread_Init_Run writes (__GC, __Exception): wait until the prologue is over before the next event runs */
+      if (managed[u]) while (!atomic_load(&entered[u])) sched_yield();
+      set_out(e, "spawned"); break; }
     case OP_JOIN: {
       int u = (int)e->a;
       if (u <= 0 || u > nworkers) { set_out(e, "nothread"); break; }
+      if (wrapper_gone[u]) { set_out(e, "ub"); break; }                 /* join on a finalised Thread object: not executed */
+      if (u == me) {
+        /* join(current(Thread)): pthread_join(self) = EDEADLK, which Thread_Join ignores */
+        prim_begin(); join(thread_obj[u]); prim_end(FN_JOIN, NULL, e->line);
+        XX("sig=kf-c13-join-edeadlk line=%d what=join(current(Thread)) in thread %d returned while the thread function is still running", e->line, me);
+        set_out(e, "early"); break; }
       int ph = atomic_load(&phase[u]);
       if (ph == PH_UNBORN) { prim_begin(); join(thread_obj[u]); tl_cello_sync = 0;
         if (tl_prim_calls != 0) XX("sig=c13-wrapper line=%d what=join of a Thread that was never called reached pthread_join", e->line);
@@ -687,6 +788,17 @@ static void exec_sync_sched(Evt* e) {
     case OP_LD: { int c = (int)e->a % MAXC; ldreg[me] = counter[c]; set_out(e, "n=%ld", ldreg[me]); break; }
     case OP_ST: { int c = (int)e->a % MAXC; counter[c] = ldreg[me] + 1; set_out(e, "n=%ld", counter[c]); break; }
     case OP_RD: { int u = (int)e->a; if (u < 0 || u >= MAXT || !pub_obj[u]) { set_out(e, "n=0"); break; } set_out(e, "n=%ld", (long)c_int(pub_obj[u])); break; }
+    case OP_RDO: {
+      int u = (int)e->a;
+      if (u < 0 || u >= MAXT || pubo_k[u] < 0) { set_out(e, "noval"); break; }
+      int ot = pubo_t[u], ok = pubo_k[u];
+      if (atomic_load(&led_fin[ot][ok]) > 0) {
+        /* the pointer is not dereferenced here: the ledger says the object is dead */
+        XX("sig=kf-c13-join-result-finalised line=%d what=thread %d reads the object %d.%d thread %d handed over: it has been finalised (by the collector of thread %d)", e->line, me, ot, ok, u, atomic_load(&led_by[ot][ok]) - 1);
+        set_out(e, "dangling=%d.%d", ot, ok); break; }
+      struct ProbeA* p = atomic_load(&objs[ot][ok]);
+      if (p && (deref(pubo_ref[u]) != (var)p || p->canary != CANARY)) XX("sig=c13-join-stale line=%d what=the pointer thread %d published does not read back as its object %d.%d", e->line, u, ot, ok);
+      set_out(e, "val=%d.%d", ot, ok); break; }
     default: set_out(e, "bad"); break;
   }
 }
@@ -702,13 +814,15 @@ static void exec_sync_free(Evt* e) {
       if (u <= 0 || u > nworkers) break;
       __real_pthread_mutex_lock(&bm);
       int ph = atomic_load(&phase[u]); int can = ph == PH_UNBORN || (ph == PH_DONE && was_joined[u]);
-      if (can) { was_joined[u] = 0; end_idx[u] = -1; atomic_store(&phase[u], PH_READY); }
+      if (wrapper_gone[u]) can = 0;
+      if (can) { was_joined[u] = 0; end_idx[u] = -1; atomic_store(&entered[u], 0); atomic_store(&phase[u], PH_READY); }
       __real_pthread_mutex_unlock(&bm);
       if (can) do_spawn(u);
       break; }
     case OP_JOIN: {
       int u = (int)e->a;
       if (u <= 0 || u > nworkers) break;
+      if (u == me || wrapper_gone[u]) break;
       __real_pthread_mutex_lock(&bm); int can = atomic_load(&phase[u]) != PH_UNBORN && !was_joined[u]; if (can) was_joined[u] = 1; __real_pthread_mutex_unlock(&bm);
       if (!can) break;
       prim_begin(); join(thread_obj[u]); prim_end(FN_JOIN, NULL, e->line);
@@ -716,6 +830,11 @@ static void exec_sync_free(Evt* e) {
       if (atomic_load(&phase[u]) != PH_DONE) XX("sig=c13-join-early line=%d what=join(thread %d) returned before the thread had finished", e->line, u);
       else { check_teardown(u, e->line); }
       if (end_idx[u] >= 0 && (long)c_int(pub_obj[u]) != ev[end_idx[u]].c) XX("sig=c13-join-stale line=%d what=after join(thread %d) its published value reads %ld, last written %ld", e->line, u, (long)c_int(pub_obj[u]), ev[end_idx[u]].c);
+      if (pubo_k[u] >= 0) {
+        int ot = pubo_t[u], ok = pubo_k[u]; struct ProbeA* p = atomic_load(&objs[ot][ok]);
+        if (atomic_load(&led_fin[ot][ok]) > 0) XX("sig=kf-c13-join-result-finalised line=%d what=after join(thread %d) the object %d.%d it handed over has been finalised", e->line, u, ot, ok);
+        else if (p && (deref(pubo_ref[u]) != (var)p || p->canary != CANARY)) XX("sig=c13-join-stale line=%d what=after join(thread %d) the pointer it published does not read back as its object %d.%d", e->line, u, ot, ok);
+      }
       break; }
     case OP_LOCK: { int m = (int)e->a % MAXM; if (holds[m]) break; c_lock(mutex_obj[m], e->line); sec_enter(m, e->line); break; }
     case OP_ENTER: { int m = (int)e->a % MAXM; if (holds[m]) break; c_enter(mutex_obj[m], e->line); sec_enter(m, e->line); break; }
@@ -733,6 +852,7 @@ static void exec_sync_free(Evt* e) {
     case OP_LD: { int c = (int)e->a % MAXC; if (!holds[c % MAXM]) break; ldreg[me] = counter[c]; ldvalid = c + 1; noise(); break; }
     case OP_ST: { int c = (int)e->a % MAXC; if (!holds[c % MAXM] || ldvalid != c + 1) break; ldvalid = 0; counter[c] = ldreg[me] + 1; atomic_fetch_add(&counter_expected[c], 1); break; }
     case OP_RD: break;   /* checked at join */
+    case OP_RDO: break;  /* checked at join */
   }
 }
 
@@ -773,6 +893,7 @@ static void run_thread_events(int me, var* held) {
       if (e->op == OP_END) {
         cur_ev[me] = 0;
         if (me == 0) { set_out(e, "dead"); continue; }     /* the main thread has no Thread_Init_Run to return to */
+        if (sweep_kills_live(me, NULL, 0)) { set_out(e, "ub"); continue; }   /* the teardown would free the Thread object of a live thread */
         end_idx[me] = (ssize_t)i; next_ev[me] = i + 1;      /* a later run of this Thread object continues after its `end` */
         return;
       }
@@ -792,6 +913,7 @@ static void run_thread_events(int me, var* held) {
     if (e->op == OP_BEGIN) atomic_store(&phase[me], PH_RUNNING);
     if (e->op == OP_END) {
       if (me == 0) { set_out(e, "dead"); advance_locked(); continue; }
+      if (sweep_kills_live(me, NULL, 0)) { set_out(e, "ub"); cur_ev[me] = 0; advance_locked(); continue; }   /* not executed */
       end_idx[me] = (ssize_t)turn;                       /* the exit hook reports and passes the baton */
       __real_pthread_mutex_unlock(&bm);
       return;
@@ -808,7 +930,8 @@ static var worker(var args) {
   int me = (int)c_int(get(args, $I(0)));
   my_tid = me;
   pthread_setspecific(exit_key, (void*)(intptr_t)(me + 1));
-  var held[MAXK]; memset(held, 0, sizeof held);
+  atomic_store(&entered[me], 1);                 /* the prologue of Thread_Init_Run is over */
+  var held[MAXK + MAXT]; memset(held, 0, sizeof held);   /* named objects, then the `var x = new(Thread, f)` variables (HTHR) */
   run_thread_events(me, held);
   return NULL;
 }
@@ -837,7 +960,15 @@ static int parse_event(char* line, Evt* e) {
   else if (!strcmp(op, "newroot") && na == 1 && LT(0, MAXK)) { e->op = OP_NEWROOT; e->a = atol(a[0]); }
   else if (!strcmp(op, "newx") && na == 1 && LT(0, MAXK)) { e->op = OP_NEWX; e->a = atol(a[0]); }
   else if (!strcmp(op, "del") && na == 2 && LT(0, MAXT) && LT(1, MAXK)) { e->op = OP_DEL; e->a = atol(a[0]); e->b = atol(a[1]); }
-  else if (!strcmp(op, "gc")) { e->op = OP_GC; e->nks = na; e->ks = calloc(na + 1, sizeof(int)); for (int i = 0; i < na; i++) { if (!LT(i, MAXK)) FAIL; e->ks[i] = atoi(a[i]); } }
+  else if (!strcmp(op, "gc")) {
+    e->op = OP_GC; e->nks = 0; e->nts = 0; e->ks = calloc(na + 1, sizeof(int)); e->ts = calloc(na + 1, sizeof(int));
+    for (int i = 0; i < na; i++) {
+      if (a[i][0] == 'T') { if (!is_nat(a[i] + 1) || strlen(a[i]) > 3 || atoi(a[i] + 1) >= MAXT || atoi(a[i] + 1) < 1) FAIL; e->ts[e->nts++] = atoi(a[i] + 1); }
+      else { if (!LT(i, MAXK)) FAIL; e->ks[e->nks++] = atoi(a[i]); } } }
+  else if (!strcmp(op, "newthr") && na == 1 && LT(0, MAXT) && atol(a[0]) >= 1) { e->op = OP_NEWTHR; e->a = atol(a[0]); }
+  else if (!strcmp(op, "pubo") && na == 1 && LT(0, MAXK)) { e->op = OP_PUBO; e->a = atol(a[0]); }
+  else if (!strcmp(op, "rdo") && na == 1 && LT(0, MAXT)) { e->op = OP_RDO; e->a = atol(a[0]); }
+  else if (!strcmp(op, "kf") && na == 1 && strlen(a[0]) < 60) { e->op = OP_KF; strcpy(e->key, a[0]); }
   else if (!strcmp(op, "churn") && na == 1 && LT(0, 5001)) { e->op = OP_CHURN; e->a = atol(a[0]); }
   else if (!strcmp(op, "tset") && na == 3 && LT(1, MAXT) && LT(2, MAXK) && strlen(a[0]) < 60) { e->op = OP_TSET; strcpy(e->key, a[0]); e->a = atol(a[1]); e->b = atol(a[2]); }
   else if (!strcmp(op, "tget") && na == 1 && strlen(a[0]) < 60) { e->op = OP_TGET; strcpy(e->key, a[0]); }
@@ -887,7 +1018,7 @@ int main(int argc, char** argv) {
   }
   for (size_t i = 0; i < nev; i++) {
     if (ev[i].tid > nworkers) nworkers = ev[i].tid;
-    if ((ev[i].op == OP_SPAWN || ev[i].op == OP_JOIN || ev[i].op == OP_RD) && ev[i].a > nworkers) nworkers = (int)ev[i].a;
+    if ((ev[i].op == OP_SPAWN || ev[i].op == OP_JOIN || ev[i].op == OP_RD || ev[i].op == OP_RDO || ev[i].op == OP_NEWTHR) && ev[i].a > nworkers) nworkers = (int)ev[i].a;
   }
   for (int t = 0; t < MAXT; t++) { end_idx[t] = -1; last_pub[t] = 0; }
   for (size_t i = 0; i < nev; i++) {            /* what thread t has published last when it reaches each of its `end`s */
@@ -912,7 +1043,7 @@ int main(int argc, char** argv) {
   pthread_key_create(&exit_key, on_thread_exit);
   worker_fn = $(Function, worker);
   for (int t = 0; t <= nworkers; t++) {
-    tid_obj[t] = new_raw(Int, $I(t)); pub_obj[t] = new_raw(Int, $I(0));
+    tid_obj[t] = new_raw(Int, $I(t)); pub_obj[t] = new_raw(Int, $I(0)); pubo_ref[t] = alloc_raw(Ref); pubo_k[t] = -1;
     scratch_mutex[t] = new_raw(Mutex); scratch_thread[t] = new_raw(Thread, worker_fn);
     if (t > 0) thread_obj[t] = new_raw(Thread, worker_fn);
     atomic_store(&phase[t], t == 0 ? PH_RUNNING : PH_UNBORN);
@@ -922,7 +1053,8 @@ int main(int argc, char** argv) {
   (void)len(current(Exception));
 
   my_tid = 0;
-  var held[MAXK]; memset(held, 0, sizeof held);
+  for (int t = nworkers + 1; t < MAXT; t++) pubo_k[t] = -1;
+  var held[MAXK + MAXT]; memset(held, 0, sizeof held);
   if (!free_mode) {
     __real_pthread_mutex_lock(&bm);
     turn = (size_t)-1; advance_locked();          /* skip leading events nobody can execute */
@@ -934,7 +1066,7 @@ int main(int argc, char** argv) {
   __real_pthread_mutex_lock(&bm);
   shutting_down = 1; pthread_cond_broadcast(&bc);
   __real_pthread_mutex_unlock(&bm);
-  for (int u = 1; u <= nworkers; u++) if (atomic_load(&phase[u]) != PH_UNBORN && !was_joined[u]) { join(thread_obj[u]); was_joined[u] = 1; }
+  for (int u = 1; u <= nworkers; u++) if (atomic_load(&phase[u]) != PH_UNBORN && !was_joined[u] && !wrapper_gone[u]) { join(thread_obj[u]); was_joined[u] = 1; }
 
   /* end-of-run oracles */
   for (int c = 0; c < MAXC; c++) if (free_mode && counter[c] != atomic_load(&counter_expected[c]))
@@ -956,6 +1088,6 @@ int main(int argc, char** argv) {
   I("events=%zu workers=%d mode=%s prim lock=%ld trylock=%ld unlock=%ld join=%ld garbage-finalised=%ld workloads=%zu", nev, nworkers, free_mode ? "free" : "sched",
     atomic_load(&prim_total[FN_LOCK]), atomic_load(&prim_total[FN_TRYLOCK]), atomic_load(&prim_total[FN_UNLOCK]), atomic_load(&prim_total[FN_JOIN]), gsum, nsolo);
   fflush(stdout);
-  for (int u = 1; u <= nworkers; u++) { del_raw(thread_obj[u]); }
+  for (int u = 1; u <= nworkers; u++) if (!managed[u]) { del_raw(thread_obj[u]); }     /* the managed ones belong to their maker's collector */
   return 0;
 }
